@@ -92,8 +92,6 @@ def check_document(doc, lists, banner, fails):
                 known = True
             if known:
                 sig = 'rated-algorithm-not-recommended-for-removal'
-                if c == 'kex' and n.startswith('gss-'):
-                    sig = 'gss-kex-rated-but-never-recommended-for-removal'
                 fails.append([sig, '%s: %s %s has %d failure(s) %d warning(s), table versions %r, but no removal/change recommendation' % (banner, c, n, nf, nw, e[0])])
     else:
         if recs:
